@@ -7,7 +7,7 @@ from . import c02
 from .c10 import user_callback_sites
 from .mir import Site, Unverifiable, callee_is, callee_path, const_int, op_fn, op_local, op_place, place_fields, place_str
 
-CFGS = {"quick": ["default", "all"], "thorough": ["default", "all", "nodefault", "tracing"]}
+CFGS = {"quick": ["default", "all", "zoo:default"], "thorough": ["default", "all", "nodefault", "tracing", "zoo:default"]}
 
 WITNESS = ["LinearWorld"]  # doctests of engine/witness run in the thorough tier
 
@@ -288,4 +288,76 @@ def r7_setters(F, R):
     roles.check_all_builder_setters(F, R, only=r"^(before|after)$", floor=4)
 
 
-RULES = [("R1", r1, None), ("R2", r2, None), ("R3", r3, None), ("R4", r4, None), ("R5", r5, None), ("R6", r6, None), ("R7", r7_setters, None)]
+def r8_ctor_glue(F, R):
+    """"A World is created at most once per attempt", the glue between `World::new()` and the user's constructor (`#[world(init = ..)]`):
+    every `ToWorldFuture::to_world_future` calls the constructor it wraps exactly once on every path and returns that call's result (the future
+    itself, or `ready(value)`); `IntoWorldResult` hands the World on as it is (`Ok(self)` / `self`)."""
+    from . import deep as D
+    tw = [b for b in F.crate_bodies() if (b.impl or {}).get("trait") == "codegen::ToWorldFuture" and b.name.endswith("::to_world_future")]
+    iw = [b for b in F.crate_bodies() if (b.impl or {}).get("trait") == "codegen::IntoWorldResult" and b.name.endswith("::into_world_result")]
+    if len(tw) < 2 or len(iw) < 2:
+        raise Unverifiable(f"constructor glue: ToWorldFuture impls {len(tw)}, IntoWorldResult impls {len(iw)}")
+    for b in tw:
+        rows = D.Deep(F, b, max_paths=50).run()
+        ok, why = bool(rows) and not any(p.cut for p in rows), "empty table or a loop"
+        for p in rows:
+            ctor = [e for e in p.effects if e[0] == "call" and e[1] == "<indirect>" and D.mentions(e[2][0], lambda x: x == ("arg", 1))]
+            other = [e for e in p.effects if e[0] == "call" and e[1] == "<indirect>" and e not in ctor]
+            if len(ctor) != 1 or other:
+                ok, why = False, f"the wrapped constructor is called {len(ctor)} times on a path" + (" (and another fn value is called)" if other else "")
+                continue
+            is_res = lambda x: isinstance(x, tuple) and len(x) == 4 and x[0] == "call" and x[3] == ctor[0][4]
+            direct = is_res(p.ret)
+            ready = isinstance(p.ret, tuple) and p.ret[0] == "call" and re.search(r"future::ready$", p.ret[1]) and len(p.ret[2]) == 1 and is_res(p.ret[2][0])
+            if not (direct or ready):
+                ok, why = False, f"what is returned is not the constructor's result: {D.fmt(b, p.ret)[:80]}"
+        R.check(ok, f"ctor-glue/called-once/{b.impl.get('self', b.short)[:30] if isinstance(b.impl.get('self'), str) else b.short[:40]}", b, "the constructor is called once, its result returned",
+                f"`{b.short[-70:]}`: {why}: a World constructor with side effects runs more (or less) than once per `World::new()`")
+    for b in iw:
+        rows = D.Deep(F, b, max_paths=20).run()
+        me = lambda x: x in (("arg", 1), ("L", 0, 1))
+        ok = len(rows) == 1 and not rows[0].cut and not [e for e in rows[0].effects if e[0] == "call"] and \
+            (me(rows[0].ret) or (D.is_variant(rows[0].ret, "std::result::Result", "Ok") and me(rows[0].ret[3][0])))
+        R.check(ok, f"ctor-glue/world-as-is/{b.short[:40]}", b, "the constructed value is handed on as it is", f"`{b.short[-70:]}` does not hand the constructed World / Result on as it is")
+    R.floor(4)
+
+
+def r9_derived_new(F, R):
+    """`#[derive(World)]` (zoo crate): the generated `World::new()` turns the constructor into a future once, awaits exactly that future once,
+    and returns `Ok(world)` / `Err(error.into())` of exactly its result."""
+    from . import deep as D
+    news = [b for b in F.bodies.values() if b.is_coroutine and re.search(r"as cucumber::World>::new::\{closure#0\}$", b.name)]
+    if not news:
+        raise Unverifiable("no derived `World::new` in the zoo")
+    for b in news:
+        rows = D.Deep(F, b, max_paths=50).run()
+        ok, why = bool(rows) and not any(p.cut for p in rows), "empty table or a loop"
+        kinds = set()
+        for p in rows:
+            mk = [e for e in p.effects if e[0] == "call" and re.search(r"ToWorldFuture>::to_world_future$", e[1])]
+            aws = [e for e in p.effects if e[0] == "await"]
+            conv = [e for e in p.effects if e[0] == "call" and re.search(r"IntoWorldResult>::into_world_result$", e[1])]
+            if len(mk) != 1 or len(aws) != 1 or len(conv) != 1:
+                ok, why = False, f"to_world_future x{len(mk)}, awaits x{len(aws)}, into_world_result x{len(conv)} on a path"
+                continue
+            is_call = lambda x, e: isinstance(x, tuple) and len(x) == 4 and x[0] == "call" and x[3] == e[4]
+            if not is_call(aws[0][1], mk[0]):
+                ok, why = False, "the awaited future is not the one to_world_future returned"
+            if not D.mentions(conv[0][2][0], lambda x: isinstance(x, tuple) and x and x[0] == "await" or is_call(x, mk[0])):
+                ok, why = False, "into_world_result is not applied to the awaited value"
+            if D.is_variant(p.ret, "std::result::Result", "Ok"):
+                kinds.add("Ok")
+                if p.ret[3][0] != ("field", ("as", ("call", conv[0][1], conv[0][2], conv[0][4]), "Ok"), 0):
+                    ok, why = False, "Ok(..) does not carry the constructed World"
+            elif D.is_variant(p.ret, "std::result::Result", "Err"):
+                kinds.add("Err")
+                if not D.mentions(p.ret[3][0], lambda x: x == ("field", ("as", ("call", conv[0][1], conv[0][2], conv[0][4]), "Err"), 0)):
+                    ok, why = False, "Err(..) does not carry the constructor's error"
+            else:
+                ok, why = False, f"returns {D.fmt(b, p.ret)[:60]}"
+        R.check(ok and kinds == {"Ok", "Err"}, f"derived-new/{b.short[:40]}", b, "constructor future made once, awaited once, result handed on", f"derived `World::new`: {why or 'cases ' + str(sorted(kinds))}")
+    R.floor(1)
+
+
+_LIB = ["default", "all", "nodefault", "tracing"]
+RULES = [("R1", r1, _LIB), ("R2", r2, _LIB), ("R3", r3, _LIB), ("R4", r4, _LIB), ("R5", r5, _LIB), ("R6", r6, _LIB), ("R7", r7_setters, _LIB), ("R8", r8_ctor_glue, _LIB), ("R9", r9_derived_new, ["zoo:default"])]
